@@ -1,9 +1,18 @@
 /-
-  Props/C03 — property theorems over M-Core (see DESIGN.md §4 C03).
+  Props/C03 — a fork removes everything above the fork height and nothing at or below it
+  (rollapp + sequencer part, over M-Core; the packet / demand-order / light-client part lives in
+  other models).
+
+  Notation used in the statements.  `hardFork s ra lv` is `HardFork(rollapp, lastValidHeight)`;
+  its first removed height is `(lv + 1) % 2 ^ 64` (the Go code computes `lastValid + 1` in uint64 and
+  refuses 0).  `revertPlan r n = .ok (keep, kst)` is the decision of `RevertPendingStates` +
+  `UpdateLastStateInfo`: `keep` is the (1-based) index of the state that stays the latest one and
+  `kst` its new contents; the new latest height is `h' := kst.last`.
 -/
-import DymVerif.Model.Core
+import DymVerif.Lemmas.CoreForkQuiet
+import DymVerif.Lemmas.CoreForkFin
 namespace DymVerif.C03
-open DymVerif DymVerif.Core
+open DymVerif DymVerif.Core DymVerif.Core.Fork
 
 /-- a rejected message leaves every component of the state untouched (the model returns its input
     state on error, mirroring baseapp's per-message cache context; that the real code does so is
@@ -13,5 +22,653 @@ theorem reject_unchanged (s : St) (o : Op) (e : Err) (h : (step s o).2 = some e)
   cases h' : apply s o with
   | ok s' => simp [h'] at h
   | error e' => simp [h']
+
+-- ================================================================ refusals
+
+/-- **A refused fork changes nothing**: whenever a fraud proposal (the message that forks at an
+    arbitrary height) is refused — for whatever reason, see `fork_refusal_reasons` — the state after
+    the step is the state before it, and the error is reported.  The same holds for every other op
+    (`reject_unchanged`), in particular for a refused kick and a refused obsolete marking. -/
+theorem fork_refused_unchanged (s : St) (au : Bool) (ra h rev : Nat) (pun rw : Option Addr) (e : Err)
+    (hr : fraud s au ra h rev pun rw = .error e) :
+    (step s (.fraud au ra h rev pun rw)).1 = s ∧ (step s (.fraud au ra h rev pun rw)).2 = some e := by
+  simp [step, apply, hr]
+
+/-- **Why a fork is refused** (complete list, `n := (lv + 1) % 2 ^ 64` the first height to remove):
+    unknown rollapp; genesis bridge not completed or fork below the genesis-bridge height
+    (`tph = 0 ∨ lv < tph`); `n = 0` (uint64 overflow); no state recorded; `n` inside a finalized
+    state; `n` the first height of the first recorded state (no previous state to keep); `n` below
+    the first recorded height. -/
+theorem fork_refusal_reasons (s : St) (ra lv : Nat) (e : Err)
+    (hc : ∀ r, getRa s ra = some r → Chain r.states) (h : hardFork s ra lv = .error e) :
+    (e = .unknownRollapp ∧ getRa s ra = none) ∨ ∃ r, getRa s ra = some r ∧
+      ((e = .forkNotAllowed ∧ (r.tph = 0 ∨ lv < r.tph)) ∨
+       (e = .invalid ∧ (lv + 1) % 2 ^ 64 = 0) ∨
+       (e = .noState ∧ r.states = []) ∨
+       (e = .finalizedHeight ∧ ∃ (i : Nat) (st : SInfo), r.states[i]? = some st ∧
+           st.start ≤ (lv + 1) % 2 ^ 64 ∧ (lv + 1) % 2 ^ 64 ≤ st.last ∧ st.finalized = true) ∨
+       (e = .noState ∧ ∃ f, r.states[0]? = some f ∧ f.start = (lv + 1) % 2 ^ 64 ∧ f.finalized = false) ∨
+       (e = .internal ∧ ∃ f, r.states[0]? = some f ∧ (lv + 1) % 2 ^ 64 < f.start)) := by
+  unfold hardFork at h
+  split at h
+  · rename_i hg
+    injection h with h; subst h
+    exact Or.inl ⟨rfl, hg⟩
+  · rename_i r hg
+    refine Or.inr ⟨r, hg, ?_⟩
+    split at h
+    · rename_i ht
+      injection h with h; subst h
+      refine Or.inl ⟨rfl, ?_⟩
+      simpa using ht
+    · split at h
+      · rename_i hn
+        injection h with h; subst h
+        exact Or.inr (Or.inl ⟨rfl, hn⟩)
+      · split at h
+        · rename_i e' hplan
+          injection h with h; subst h
+          rcases revertPlan_refusals (hc r hg) hplan with h1 | h1 | h1 | h1
+          · exact Or.inr (Or.inr (Or.inl h1))
+          · exact Or.inr (Or.inr (Or.inr (Or.inl h1)))
+          · exact Or.inr (Or.inr (Or.inr (Or.inr (Or.inl h1))))
+          · exact Or.inr (Or.inr (Or.inr (Or.inr (Or.inr h1))))
+        · cases h
+
+/-- unknown rollapp ⇒ refused -/
+theorem fork_refused_unknown_rollapp (s : St) (ra lv : Nat) (hg : getRa s ra = none) :
+    hardFork s ra lv = .error .unknownRollapp := by
+  unfold hardFork; rw [hg]
+
+/-- genesis bridge not completed (`tph = 0`) or fork height before the genesis-bridge height ⇒ refused -/
+theorem fork_refused_before_genesis_bridge (s : St) (ra lv : Nat) (r : Rollapp) (hg : getRa s ra = some r)
+    (ht : r.tph = 0 ∨ lv < r.tph) : hardFork s ra lv = .error .forkNotAllowed := by
+  unfold hardFork; rw [hg]
+  dsimp only
+  rw [if_pos]
+  simpa using ht
+
+/-- no state recorded yet ⇒ refused (whatever the other checks say) -/
+theorem fork_refused_no_state (s : St) (ra lv : Nat) (r : Rollapp) (hg : getRa s ra = some r)
+    (hs : r.states = []) : ∃ e, hardFork s ra lv = .error e := by
+  unfold hardFork; rw [hg]
+  dsimp only
+  split
+  · exact ⟨_, rfl⟩
+  · split
+    · exact ⟨_, rfl⟩
+    · rw [revertPlan_noState hs]; exact ⟨_, rfl⟩
+
+/-- **A fork that would touch a finalized height is refused**: if the first height to remove lies
+    inside a finalized state the fork is never accepted, and when the genesis-bridge check passes the
+    reported reason is `finalizedHeight`. -/
+theorem fork_refused_finalized (s : St) (ra lv i : Nat) (r : Rollapp) (st : SInfo) (hc : Chain r.states)
+    (hg : getRa s ra = some r) (hst : r.states[i]? = some st) (h1 : st.start ≤ (lv + 1) % 2 ^ 64)
+    (h2 : (lv + 1) % 2 ^ 64 ≤ st.last) (hfin : st.finalized = true) :
+    (∃ e, hardFork s ra lv = .error e) ∧
+    (0 < r.tph → r.tph ≤ lv → hardFork s ra lv = .error .finalizedHeight) := by
+  have hplan := revertPlan_finalized hc hst h1 h2 hfin
+  have hn : (lv + 1) % 2 ^ 64 ≠ 0 := by
+    have := (hc.wf st (List.mem_of_getElem? hst)).start_pos
+    omega
+  constructor
+  · unfold hardFork; rw [hg]
+    dsimp only
+    split
+    · exact ⟨_, rfl⟩
+    · first | rw [if_neg hn, hplan] | rw [hplan]
+      exact ⟨_, rfl⟩
+  · intro ht1 ht2
+    unfold hardFork; rw [hg]
+    dsimp only
+    rw [if_neg (by simp; omega), if_neg hn, hplan]
+
+/-- **A fork below any finalized height is refused** — full form, given that finalized states form
+    a prefix of the recorded states (`FinPrefix`; an invariant of every reachable state, it is C02's
+    "finalization proceeds in index order").  If some finalized state has a height above the last
+    valid height, the fork is refused, wherever the fork height itself falls. -/
+theorem fork_refused_if_finalized_above (s : St) (ra lv j : Nat) (r : Rollapp) (x : SInfo) (hc : Chain r.states)
+    (hfp : FinPrefix r.states) (hg : getRa s ra = some r) (hx : r.states[j]? = some x)
+    (hxf : x.finalized = true) (hlv : lv < x.last) : ∃ e, hardFork s ra lv = .error e := by
+  cases h : hardFork s ra lv with
+  | error e => exact ⟨e, rfl⟩
+  | ok s' =>
+    exfalso
+    obtain ⟨r1, keep, kst, hg1, _, _, _, hplan, _⟩ := hardFork_ok_elim h
+    rw [hg] at hg1; injection hg1 with hg1; subst hg1
+    obtain ⟨st, l, ps⟩ := revertPlan_spec hc hplan
+    have h1 := ps.no_finalized_above hc hfp j x hx hxf
+    have h2 := ps.h_min
+    have h3 := Nat.mod_le (lv + 1) (2 ^ 64)
+    generalize (lv + 1) % 2 ^ 64 = n at *
+    omega
+
+/-- … and, the other way round, an accepted fork removes and truncates unfinalized states only: every
+    removed state was unfinalized and every finalized state lies entirely at or below h'. -/
+theorem fork_touches_no_finalized_state (s s' : St) (ra lv keep : Nat) (r : Rollapp) (kst : SInfo)
+    (hc : Chain r.states) (hfp : FinPrefix r.states) (_hg : getRa s ra = some r)
+    (hplan : revertPlan r ((lv + 1) % 2 ^ 64) = .ok (keep, kst)) (_e : hardFork s ra lv = .ok s') :
+    (∀ (j : Nat) (x : SInfo), keep ≤ j → r.states[j]? = some x → x.finalized = false) ∧
+    (∀ (j : Nat) (x : SInfo), r.states[j]? = some x → x.finalized = true → x.last ≤ kst.last) := by
+  obtain ⟨st, l, ps⟩ := revertPlan_spec hc hplan
+  exact ⟨ps.removed_unfin hc hfp, ps.no_finalized_above hc hfp⟩
+
+/-- a fraud proposal naming a wrong revision for the fraud height is refused -/
+theorem fraud_refused_wrong_revision (s : St) (ra h rev : Nat) (pun rw : Option Addr) (r : Rollapp)
+    (hg : getRa s ra = some r) (hh : h ≠ 0) (hrev : revForHeight r h ≠ rev) :
+    fraud s true ra h rev pun rw = .error .wrongRevision := by
+  unfold fraud
+  simp only [Bool.not_true, Bool.false_eq_true, if_false, hh, hg]
+  rw [if_pos hrev]
+
+-- ================================================================ accepted forks
+
+/-- an accepted fork passed every gate: the rollapp exists, its genesis-bridge height is set and
+    not above the last valid height, and the plan was accepted -/
+theorem fork_accepted (s s' : St) (ra lv : Nat) (e : hardFork s ra lv = .ok s') :
+    ∃ r keep kst, getRa s ra = some r ∧ 0 < r.tph ∧ r.tph ≤ lv ∧ (lv + 1) % 2 ^ 64 ≠ 0 ∧
+      revertPlan r ((lv + 1) % 2 ^ 64) = .ok (keep, kst) := by
+  obtain ⟨r, keep, kst, h1, h2, h3, h4, h5, _⟩ := hardFork_ok_elim e
+  exact ⟨r, keep, kst, h1, h2, h3, h4, h5⟩
+
+/-- **No recorded state refers to a height above h'; h' = min(lv, previous latest height).**
+    With `r'` the forked rollapp's record after the fork and `h' := kst.last`:
+    the states are the first `keep - 1` old states followed by the kept state; the latest height is
+    `h'`; `h' ≤ lv` and `h'` is exactly the minimum of the requested last valid height and the
+    previous latest height; no state and no block descriptor of `r'` lies above `h'`; the chain is
+    still gap-free; the kept state is the old state at that index cut down to its heights ≤ h' with
+    `NextProposer` cleared; every removed state lay entirely above `h'`; the state that contained
+    the first removed height was not finalized. -/
+theorem fork_states_above_removed (s s' : St) (ra lv keep : Nat) (r r' : Rollapp) (kst : SInfo)
+    (hc : Chain r.states) (hg : getRa s ra = some r)
+    (hplan : revertPlan r ((lv + 1) % 2 ^ 64) = .ok (keep, kst))
+    (e : hardFork s ra lv = .ok s') (hr' : getRa s' ra = some r') :
+    r'.states = r.states.take (keep - 1) ++ [kst] ∧
+    latestHeight r' = some kst.last ∧
+    kst.last ≤ lv ∧
+    (∀ lh, latestHeight r = some lh → kst.last = min ((lv + 1) % 2 ^ 64 - 1) lh) ∧
+    (lv + 1 < 2 ^ 64 → ∀ lh, latestHeight r = some lh → kst.last = min lv lh) ∧
+    (∀ st ∈ r'.states, st.last ≤ kst.last ∧ ∀ b ∈ st.bds, b.height ≤ kst.last) ∧
+    Chain r'.states ∧
+    (∃ st, 1 ≤ keep ∧ r.states[keep - 1]? = some st ∧ st.start ≤ kst.last ∧ kst.last ≤ st.last ∧
+       kst = { st with num := kst.last + 1 - st.start, bds := st.bds.take (kst.last + 1 - st.start),
+                       next := NextP.empty } ∧
+       (kst.last < st.last → st.finalized = false)) ∧
+    (∀ (j : Nat) (x : SInfo), keep ≤ j → r.states[j]? = some x → kst.last < x.start) ∧
+    (∀ (j : Nat) (x : SInfo), r.states[j]? = some x → x.start ≤ (lv + 1) % 2 ^ 64 → (lv + 1) % 2 ^ 64 ≤ x.last →
+       x.finalized = false) := by
+  obtain ⟨p', hr1, _⟩ := hardFork_getRa_same hg hplan e
+  rw [hr'] at hr1; injection hr1 with hr1; subst hr1
+  obtain ⟨st, l, ps⟩ := revertPlan_spec hc hplan
+  have hchain : Chain (r.states.take (keep - 1) ++ [kst]) := forkedRollapp_chain hc hplan
+  have hlast : (r.states.take (keep - 1) ++ [kst]).getLast? = some kst := by simp
+  have hlat : ∀ lh, latestHeight r = some lh → lh = l.last := by
+    intro lh hlh
+    unfold latestHeight at hlh
+    rw [ps.hl] at hlh
+    injection hlh with hlh; exact hlh.symm
+  have hmin := ps.h_min
+  have hmod := Nat.mod_le (lv + 1) (2 ^ 64)
+  refine ⟨rfl, ?_, ?_, ?_, ?_, ?_, hchain, ?_, ps.above hc, ps.hit_unfin⟩
+  · show latestHeight { r with states := r.states.take (keep - 1) ++ [kst] } = some kst.last
+    unfold latestHeight; dsimp only; rw [hlast]; rfl
+  · generalize (lv + 1) % 2 ^ 64 = n at *
+    omega
+  · intro lh hlh; rw [hlat lh hlh]; exact hmin
+  · intro hlt lh hlh
+    rw [hlat lh hlh, hmin, Nat.mod_eq_of_lt hlt]; simp
+  · intro x hx
+    have hx : x ∈ r.states.take (keep - 1) ++ [kst] := hx
+    obtain ⟨i, hi, rfl⟩ := List.mem_iff_getElem.1 hx
+    have hxi : (r.states.take (keep - 1) ++ [kst])[i]? = some (r.states.take (keep - 1) ++ [kst])[i] := by simp
+    have hwx := hchain.wf _ hx
+    have hwk := hchain.wf kst (List.mem_of_getLast? hlast)
+    have hle := hchain.le_last hlast i _ hxi
+    have h1 : (r.states.take (keep - 1) ++ [kst])[i].last ≤ kst.last := by
+      rw [hwx.last_eq, hwk.last_eq]; omega
+    exact ⟨h1, fun b hb => Nat.le_trans (hwx.bd_range hb).2 h1⟩
+  · exact ⟨st, ps.keep_pos, ps.hst, ps.h_lo, ps.h_hi, ps.kst_eq, ps.trunc_unfin⟩
+
+/-- **Nothing at or below h' is removed or changed**: the states before the kept one are
+    untouched, and every block descriptor at a height ≤ h' is still recorded, in the state with the
+    same index, creator, start height, hub creation height and finalization status. -/
+theorem fork_states_below_kept (s s' : St) (ra lv keep : Nat) (r r' : Rollapp) (kst : SInfo)
+    (hc : Chain r.states) (hg : getRa s ra = some r)
+    (hplan : revertPlan r ((lv + 1) % 2 ^ 64) = .ok (keep, kst))
+    (e : hardFork s ra lv = .ok s') (hr' : getRa s' ra = some r') :
+    (∀ i, i + 1 < keep → r'.states[i]? = r.states[i]?) ∧
+    (∀ (i : Nat) (st : SInfo) (b : BD), r.states[i]? = some st → b ∈ st.bds → b.height ≤ kst.last →
+      ∃ st', r'.states[i]? = some st' ∧ b ∈ st'.bds ∧ st'.creator = st.creator ∧ st'.start = st.start ∧
+        st'.creationHeight = st.creationHeight ∧ st'.finalized = st.finalized ∧ st'.accRev = st.accRev ∧
+        st'.finalizedAt = st.finalizedAt) := by
+  obtain ⟨p', hr1, _⟩ := hardFork_getRa_same hg hplan e
+  rw [hr'] at hr1; injection hr1 with hr1; subst hr1
+  obtain ⟨st0, l, ps⟩ := revertPlan_spec hc hplan
+  have hk := ps.keep_pos
+  have hklen := getElem?_lt ps.hst
+  have hpre : ∀ i, i + 1 < keep → (r.states.take (keep - 1) ++ [kst])[i]? = r.states[i]? := by
+    intro i hi
+    rw [List.getElem?_append_left (by rw [List.length_take]; omega), List.getElem?_take_of_lt (by omega)]
+  refine ⟨hpre, ?_⟩
+  intro i st b hst hb hbh
+  have hw := hc.wf st (List.mem_of_getElem? hst)
+  have hbr := hw.bd_range hb
+  rcases Nat.lt_trichotomy (i + 1) keep with hlt | heq | hgt
+  · exact ⟨st, (hpre i hlt).trans hst, hb, rfl, rfl, rfl, rfl, rfl, rfl⟩
+  · have hi : i = keep - 1 := by omega
+    subst hi
+    rw [ps.hst] at hst; injection hst with hst; subst hst
+    refine ⟨kst, ?_, ?_, ps.kst_creator, ps.kst_start, ?_, ps.kst_finalized, ?_, ?_⟩
+    · rw [List.getElem?_append_right (by rw [List.length_take]; omega)]
+      rw [List.length_take, Nat.min_eq_left (by omega)]; simp
+    · have hkb : kst.bds = st0.bds.take (kst.last + 1 - st0.start) := by
+        have := ps.kst_eq
+        generalize kst.last + 1 - st0.start = m at this
+        rw [this]
+      rw [hkb]
+      exact hw.bd_take hb _ (by omega)
+    · rw [ps.kst_eq]
+    · rw [ps.kst_eq]
+    · rw [ps.kst_eq]
+  · exfalso
+    have := ps.above hc i st (by omega) hst
+    omega
+
+/-- **No finalization-queue entry of the forked rollapp references a removed index; everything
+    else in the queue is untouched.**  Every index left in an entry of `ra` is ≤ `keep` and no entry
+    of `ra` is left empty; the indices queued for `ra` are exactly the old ones that are ≤ `keep`, in
+    the same order; the entries of every other rollapp are literally the same, in the same order; the
+    (creation height, rollapp) order of the queue is preserved. -/
+theorem fork_queue_pruned (s s' : St) (ra lv keep : Nat) (r : Rollapp) (kst : SInfo)
+    (hg : getRa s ra = some r) (hplan : revertPlan r ((lv + 1) % 2 ^ 64) = .ok (keep, kst))
+    (e : hardFork s ra lv = .ok s') :
+    (∀ en ∈ s'.queue, en.ra = ra → en.idx ≠ [] ∧ ∀ i ∈ en.idx, i ≤ keep) ∧
+    (∀ en ∈ s'.queue, ∃ e0 ∈ s.queue, e0.ch = en.ch ∧ e0.ra = en.ra ∧ (∀ i ∈ en.idx, i ∈ e0.idx) ∧
+        (en.ra ≠ ra → en = e0)) ∧
+    flat s'.queue ra = (flat s.queue ra).filter (· ≤ keep) ∧
+    (∀ ra', ra' ≠ ra → s'.queue.filter (·.ra == ra') = s.queue.filter (·.ra == ra')) ∧
+    (∀ ra', ra' ≠ ra → flat s'.queue ra' = flat s.queue ra') ∧
+    (QSorted s.queue → QSorted s'.queue) := by
+  rw [hardFork_queue hg hplan e]
+  refine ⟨?_, ?_, flat_removeIdxAbove_same _ _ _, fun ra' hne => filter_removeIdxAbove_other _ _ _ _ hne,
+    fun ra' hne => flat_removeIdxAbove_other _ _ _ _ hne, removeIdxAbove_sorted _ _ _⟩
+  · intro en hen hra
+    obtain ⟨e0, _, _, _, h3, h4, _⟩ := mem_removeIdxAbove _ _ _ _ hen
+    exact ⟨h4 hra, fun i hi => (h3 i hi).2 hra⟩
+  · intro en hen
+    obtain ⟨e0, h0, h1, h2, h3, _, h5⟩ := mem_removeIdxAbove _ _ _ _ hen
+    exact ⟨e0, h0, h1, h2, fun i hi => (h3 i hi).1, h5⟩
+
+/-- **Sequencer liabilities above h' are removed, all others kept** (the clause that was false
+    before fix da76b521e: the creator of the kept, truncated state is now included).
+    `creators` are the creators of the removed states and of the kept state.  After the fork no
+    pair `(a, h)` with `a` among them and `h > h'` remains; every pair with `h ≤ h'`, and every pair
+    of any other sequencer, is kept; nothing is added and the order is unchanged. -/
+theorem fork_liability_pruned (s s' : St) (ra lv keep : Nat) (r : Rollapp) (kst : SInfo)
+    (hg : getRa s ra = some r) (hplan : revertPlan r ((lv + 1) % 2 ^ 64) = .ok (keep, kst))
+    (e : hardFork s ra lv = .ok s') :
+    (∀ p ∈ s'.seqH, (p.1 = kst.creator ∨ ∃ st ∈ r.states.drop keep, st.creator = p.1) → p.2 ≤ kst.last) ∧
+    (∀ p ∈ s.seqH, p.2 ≤ kst.last → p ∈ s'.seqH) ∧
+    (∀ p ∈ s.seqH, p.1 ≠ kst.creator → (∀ st ∈ r.states.drop keep, st.creator ≠ p.1) → p ∈ s'.seqH) ∧
+    s'.seqH.Sublist s.seqH := by
+  rw [hardFork_seqH hg hplan e]
+  refine ⟨?_, ?_, ?_, pruneSeqHeights_sublist _ _ _⟩
+  · intro p hp hc
+    apply ((mem_pruneSeqHeights _ _ _ _).1 hp).2
+    rcases hc with hc | ⟨st, hst, hc⟩
+    · simp [hc]
+    · simp only [List.mem_cons, List.mem_map]
+      exact Or.inr ⟨st, hst, hc⟩
+  · intro p hp hle
+    exact (mem_pruneSeqHeights _ _ _ _).2 ⟨hp, fun _ => hle⟩
+  · intro p hp h1 h2
+    refine (mem_pruneSeqHeights _ _ _ _).2 ⟨hp, fun hc => ?_⟩
+    exfalso
+    simp only [List.mem_cons, List.mem_map] at hc
+    rcases hc with hc | ⟨st, hst, hc⟩
+    · exact h1 hc
+    · exact h2 st hst hc
+
+/-- **Everything else** (exhaustive frame of an accepted fork).
+    Other rollapps: records unchanged.  The forked rollapp's record: states and revisions as
+    described by the other theorems, liveness clock reset (`evH = 0`, countdown restarts at the
+    current hub height), successor cleared, proposer := sentinel (`none`; the alternative — a
+    recorded proposer without a sequencer record — does not occur in reachable states), all other
+    fields (id, owner, minimum bond, launched, latest finalized index, genesis-bridge height) as
+    before.  Sequencers: every sequencer of the rollapp is opted out, the former proposer is
+    unbonded, and nothing else of any sequencer record changes — in particular no bond.  The
+    rollapp's pending liveness event is removed from the event queue.  Notice queue: only entries of
+    the removed proposer may disappear.  Hub clock, parameters, bank balances, module balance,
+    burned total and the obsolete-version list are unchanged. -/
+theorem fork_frame (s s' : St) (ra lv keep : Nat) (r : Rollapp) (kst : SInfo)
+    (hg : getRa s ra = some r) (hplan : revertPlan r ((lv + 1) % 2 ^ 64) = .ok (keep, kst))
+    (e : hardFork s ra lv = .ok s') :
+    (∀ id, id ≠ ra → getRa s' id = getRa s id) ∧
+    (∃ p', getRa s' ra = some { r with states := r.states.take (keep - 1) ++ [kst],
+                                        revs := r.revs ++ [(latestRev r + 1, kst.last + 1)],
+                                        evH := 0, cdStart := s.h, proposer := p', successor := none } ∧
+       (p' = none ∨ (p' = r.proposer ∧ ∃ a, r.proposer = some a ∧ getSeq s a = none))) ∧
+    (∀ a, getSeq s' a = (getSeq s a).map (fun q =>
+        { q with optedIn := if q.rollapp == ra then false else q.optedIn,
+                 bonded := if r.proposer = some a then false else q.bonded })) ∧
+    TokFrame s s' ∧
+    s'.lev = delEvent s.lev r.evH ra ∧
+    (∀ x ∈ s'.nq, x ∈ s.nq) ∧ (∀ x ∈ s.nq, r.proposer ≠ some x.2 → x ∈ s'.nq) ∧
+    s'.h = s.h ∧ s'.t = s.t ∧ s'.p = s.p ∧ s'.bal = s.bal ∧ s'.modBal = s.modBal ∧ s'.burned = s.burned ∧
+    s'.obsolete = s.obsolete := by
+  have hs := hardFork_ok_eq hg hplan e
+  have hrest := seqOnHardFork_rest (forkMid s ra r keep kst) ra
+  have hmid := forkMid_rest s ra keep r kst
+  have hgm := forkMid_getRa_same (keep := keep) (kst := kst) hg
+  refine ⟨fun id hne => hardFork_getRa_other e hne, hardFork_getRa_same hg hplan e, hardFork_getSeq hg e,
+    hardFork_tok e, hardFork_lev hg hplan e, ?_, ?_, ?_, ?_, ?_, ?_, ?_, ?_, ?_⟩
+  · subst hs; intro x hx
+    have := seqOnHardFork_nq_sub _ _ x hx
+    rw [hmid.2.2.2.2.2.2.2.1] at this; exact this
+  · subst hs; intro x hx hne
+    exact seqOnHardFork_nq_keep hgm x (by rw [hmid.2.2.2.2.2.2.2.1]; exact hx) hne
+  · subst hs; rw [hrest.h]; exact hmid.1
+  · subst hs; rw [hrest.t]; exact hmid.2.1
+  · subst hs; rw [hrest.p]; exact hmid.2.2.1
+  · subst hs; rw [hrest.bal]; exact hmid.2.2.2.1
+  · subst hs; rw [hrest.modBal]; exact hmid.2.2.2.2.1
+  · subst hs; rw [hrest.burned]; exact hmid.2.2.2.2.2.1
+  · subst hs; rw [hrest.obsolete]; exact hmid.2.2.2.2.2.2.1
+
+/-- **The revision is bumped to start at h' + 1.** -/
+theorem fork_revision (s s' : St) (ra lv keep : Nat) (r r' : Rollapp) (kst : SInfo)
+    (hg : getRa s ra = some r) (hplan : revertPlan r ((lv + 1) % 2 ^ 64) = .ok (keep, kst))
+    (e : hardFork s ra lv = .ok s') (hr' : getRa s' ra = some r') :
+    r'.revs = r.revs ++ [(latestRev r + 1, kst.last + 1)] ∧
+    latestRev r' = latestRev r + 1 ∧
+    (∀ x, kst.last < x → revForHeight r' x = latestRev r + 1) ∧
+    (∀ x, x ≤ kst.last → revForHeight r' x = revForHeight r x) := by
+  obtain ⟨p', hr1, _⟩ := hardFork_getRa_same hg hplan e
+  rw [hr'] at hr1; injection hr1 with hr1
+  have hrevs : r'.revs = r.revs ++ [(latestRev r + 1, kst.last + 1)] := by rw [hr1]
+  refine ⟨hrevs, latestRev_append r _ r' hrevs, ?_, ?_⟩
+  · intro x hx
+    rw [revForHeight_append r r' _ hrevs, if_pos (by show kst.last + 1 ≤ x; omega)]
+  · intro x hx
+    rw [revForHeight_append r r' _ hrevs, if_neg (by show ¬ kst.last + 1 ≤ x; omega)]
+
+/-- **The next accepted update must start at h' + 1 with the new revision.**  In any later state
+    `s2` in which the rollapp's revisions and latest height are still those the fork left behind
+    (no other update or fork of that rollapp happened in between), an accepted update of that
+    rollapp has `start = h' + 1` and `rev = (old latest revision) + 1`. -/
+theorem post_fork_update (s s' : St) (ra lv keep : Nat) (r r' : Rollapp) (kst : SInfo)
+    (hc : Chain r.states) (hg : getRa s ra = some r)
+    (hplan : revertPlan r ((lv + 1) % 2 ^ 64) = .ok (keep, kst))
+    (e : hardFork s ra lv = .ok s') (hr' : getRa s' ra = some r')
+    (s2 s3 : St) (r2 : Rollapp) (m : UpdMsg) (hm : m.ra = ra) (hg2 : getRa s2 ra = some r2)
+    (hc2 : Chain r2.states) (hrevs : r2.revs = r'.revs) (hlat : latestHeight r2 = latestHeight r')
+    (acc : apply s2 (.update m) = .ok s3) :
+    m.start = kst.last + 1 ∧ m.rev = latestRev r + 1 := by
+  have hrev := (fork_revision s s' ra lv keep r r' kst hg hplan e hr').2.1
+  have hst := (fork_states_above_removed s s' ra lv keep r r' kst hc hg hplan e hr').2.1
+  simp only [apply] at acc
+  obtain ⟨r2', hg2', _, hrev2, hstart⟩ := updateState_ok_elim acc
+  rw [hm, hg2] at hg2'; injection hg2' with hg2'; subst hg2'
+  constructor
+  · rw [hst] at hlat
+    unfold latestHeight at hlat
+    cases hl : r2.states.getLast? with
+    | none => rw [hl] at hlat; cases hlat
+    | some l2 =>
+      rw [hl] at hlat
+      injection hlat with hlat
+      have hlat : l2.last = kst.last := hlat
+      have hw := hc2.wf l2 (List.mem_of_getLast? hl)
+      rw [hstart l2 hl]
+      rw [hw.last_eq] at hlat
+      have := hw.num_pos
+      omega
+  · rw [← hrev2, ← hrev]
+    unfold latestRev; rw [hrevs]
+
+-- ================================================================ entry points
+
+/-- **Fraud proposal**: an accepted proposal for fraud height `h` (authorised, `h ≠ 0`, the named
+    revision is the one recorded for `h`) punishes the named sequencer, if any, — which touches no
+    rollapp record, queue entry or liability — and then forks with last valid height `h - 1`, so the
+    first removed height is `h` itself. -/
+theorem fraud_is_fork (s s' : St) (au : Bool) (ra h rev : Nat) (pun rw : Option Addr)
+    (e : fraud s au ra h rev pun rw = .ok s') :
+    au = true ∧ h ≠ 0 ∧ ∃ r s1, getRa s ra = some r ∧ revForHeight r h = rev ∧
+      (∀ id, getRa s1 id = getRa s id) ∧ s1.seqH = s.seqH ∧ s1.queue = s.queue ∧
+      hardFork s1 ra (h - 1) = .ok s' ∧ (h < 2 ^ 64 → (h - 1 + 1) % 2 ^ 64 = h) := by
+  obtain ⟨h1, h2, r, s1, h3, h4, h5, h6⟩ := fraud_ok_elim e
+  refine ⟨h1, h2, r, s1, h3, h4, ?_, ?_, ?_, h6, ?_⟩
+  · intro id
+    cases pun with
+    | none => rw [show s1 = s from h5]
+    | some a => exact punish_getRa h5 id
+  · cases pun with
+    | none => rw [show s1 = s from h5]
+    | some a => exact (punish_seqH_queue h5).1
+  · cases pun with
+    | none => rw [show s1 = s from h5]
+    | some a => exact (punish_seqH_queue h5).2
+  · intro hlt
+    rw [show h - 1 + 1 = h by omega, Nat.mod_eq_of_lt hlt]
+
+/-- **Fork to the latest height** (kick, rotation with no successor, obsolete marking): it is
+    `hardFork` at the latest height, and under the chain invariant it removes no state and no height:
+    all states stay, only the latest state's `NextProposer` is cleared, `h'` is the old latest height. -/
+theorem fork_to_latest (s s' : St) (ra : Nat) (e : hardForkToLatest s ra = .ok s') :
+    ∃ r lh, getRa s ra = some r ∧ latestHeight r = some lh ∧ hardFork s ra lh = .ok s' ∧
+      (Chain r.states → ∃ l, r.states.getLast? = some l ∧ (lh + 1) % 2 ^ 64 = lh + 1 ∧
+        revertPlan r ((lh + 1) % 2 ^ 64) = .ok (r.states.length, { l with next := NextP.empty })) :=
+  hardForkToLatest_plan e
+
+/-- **Kick**: an accepted kick removes the proposer abruptly, forks to the latest height, re-opts
+    the kicker in and elects a new proposer. -/
+theorem kick_is_fork (s s' : St) (a : Addr) (e : kick s a = .ok s') :
+    ∃ kicker r pa s3, getSeq s a = some kicker ∧ getRa s kicker.rollapp = some r ∧ r.proposer = some pa ∧ a ≠ pa ∧
+      hardForkToLatest (abruptRemoveProposer s r.id) r.id = .ok s3 ∧
+      recoverFromSentinel (setSeq s3 { kicker with optedIn := true }) r.id = .ok s' := kick_ok_elim e
+
+/-- **Rotation with no successor**: the proposer's last block hands over to the sentinel and forks
+    to the latest height. -/
+theorem rotation_to_sentinel_is_fork (s : St) (prop : Seq) (r : Rollapp) (hn : noticeElapsed prop s.t = true)
+    (hg : getRa s prop.rollapp = some r) (hs : r.successor = none) :
+    onProposerLastBlock s prop = hardForkToLatest (setRa s { r with successor := none, proposer := none }) r.id :=
+  onProposerLastBlock_sentinel hn hg hs
+
+/-- **Obsolete marking**: the version list is extended and then a sequence of accepted
+    forks-to-latest runs, one per affected rollapp (refused ones are dropped without effect). -/
+theorem obsolete_is_forks (s s' : St) (au : Bool) (vs : List Nat) (e : markObsolete s au vs = .ok s') :
+    au = true ∧ vs ≠ [] ∧
+      ForkSeq { s with obsolete := vs.foldl (fun acc v => if acc.contains v then acc else acc ++ [v]) s.obsolete } s' :=
+  markObsolete_ok_elim e
+
+-- ================================================================ reachable states
+
+/-- the three state invariants behind the clean forms below (with the chain and custody invariants of
+    C01 / C06) hold in every reachable state, for every parameter set and every op sequence … -/
+theorem reachable_inv (p : Params) (ops : List Op) : Inv (run p ops) := run_inv p ops
+
+/-- … and an accepted fork preserves them -/
+theorem fork_preserves_inv (s s' : St) (ra lv : Nat) (hi : Inv s) (e : hardFork s ra lv = .ok s') : Inv s' :=
+  ⟨hardFork_chain hi.chain e, hardFork_cust hi.cust e, hardFork_J hi.chain hi.j e⟩
+
+/-- **Liability invariant, every reachable state**: every (sequencer, height) liability refers to
+    an unfinalized height of a recorded state of the sequencer's own rollapp, created by that
+    sequencer. -/
+theorem liability_inv (p : Params) (ops : List Op) :
+    ∀ pr ∈ (run p ops).seqH, ∃ (q : Seq) (r : Rollapp) (i : Nat) (st : SInfo),
+      getSeq (run p ops) pr.1 = some q ∧ getRa (run p ops) q.rollapp = some r ∧ r.states[i]? = some st ∧
+      st.creator = pr.1 ∧ st.finalized = false ∧ st.start ≤ pr.2 ∧ pr.2 ≤ st.last := by
+  intro pr hpr
+  obtain ⟨ra, r, i, st, ⟨q, hq, hqr⟩, h2, h3, h4, h5, h6, h7⟩ := (run_inv p ops).j.liab pr hpr
+  exact ⟨q, r, i, st, hq, by rw [hqr]; exact h2, h3, h4, h5, h6, h7⟩
+
+/-- **Every reachable state**: the proposer and the successor of a rollapp, and the creator of each
+    of its recorded states, are sequencers of that rollapp. -/
+theorem roles_inv (p : Params) (ops : List Op) (id : Nat) (r : Rollapp) (hg : getRa (run p ops) id = some r) :
+    (∀ a, r.proposer = some a → ∃ q, getSeq (run p ops) a = some q ∧ q.rollapp = id) ∧
+    (∀ a, r.successor = some a → ∃ q, getSeq (run p ops) a = some q ∧ q.rollapp = id) ∧
+    (∀ st ∈ r.states, ∃ q, getSeq (run p ops) st.creator = some q ∧ q.rollapp = id) := by
+  have hj := (run_inv p ops).j
+  have hid := getRa_id hg
+  have hp := hj.prop id r hg
+  unfold PQ at hp
+  rw [hid] at hp
+  exact ⟨hp.1, hp.2, hj.creators id r hg⟩
+
+/-- **After a fork no liability of the forked rollapp lies above h'** (the clean form of
+    `fork_liability_pruned`, from the liability invariant): for a fork of a state satisfying the
+    invariants — every reachable state, also after the punishment / proposer removal that precede the
+    fork inside a fraud proposal / kick — no pair `(a, h)` with `a` a sequencer of `ra` and `h > h'`
+    remains. -/
+theorem fork_no_liability_above (s s' : St) (ra lv keep : Nat) (r : Rollapp) (kst : SInfo) (hi : Inv s)
+    (hg : getRa s ra = some r) (hplan : revertPlan r ((lv + 1) % 2 ^ 64) = .ok (keep, kst))
+    (e : hardFork s ra lv = .ok s') :
+    ∀ pr ∈ s'.seqH, ∀ q, getSeq s' pr.1 = some q → q.rollapp = ra → pr.2 ≤ kst.last := by
+  intro pr hpr q hq hqr
+  obtain ⟨ra0, r0, i, st, ⟨q', hq', hqr'⟩, h2, h3, _, _, _, h7⟩ := (hardFork_J hi.chain hi.j e).liab pr hpr
+  rw [hq] at hq'; injection hq' with hq'; subst hq'
+  rw [hqr] at hqr'; subst hqr'
+  have hb := (fork_states_above_removed s s' ra lv keep r r0 kst (hi.chain.get hg) hg hplan e h2).2.2.2.2.2.1
+  exact Nat.le_trans h7 (hb st (List.mem_of_getElem? h3)).1
+
+/-- **Everything belonging to other rollapps is unchanged** (sequencer side): for a fork of a state
+    satisfying the invariants, the record of every sequencer of another rollapp is literally the
+    same and every liability of such a sequencer is kept.  (Rollapp records and queue entries of
+    other rollapps: `fork_frame`, `fork_queue_pruned`.) -/
+theorem fork_other_rollapps_untouched (s s' : St) (ra lv keep : Nat) (r : Rollapp) (kst : SInfo) (hi : Inv s)
+    (hg : getRa s ra = some r) (hplan : revertPlan r ((lv + 1) % 2 ^ 64) = .ok (keep, kst))
+    (e : hardFork s ra lv = .ok s') :
+    (∀ a q, getSeq s a = some q → q.rollapp ≠ ra → getSeq s' a = some q) ∧
+    (∀ pr ∈ s.seqH, ∀ q, getSeq s pr.1 = some q → q.rollapp ≠ ra → pr ∈ s'.seqH) := by
+  have hid := getRa_id hg
+  constructor
+  · intro a q hq hne
+    rw [hardFork_getSeq hg e a, hq]
+    have h1 : (q.rollapp == ra) = false := by simp [hne]
+    have h2 : ¬ r.proposer = some a := by
+      intro hc
+      obtain ⟨q', hq', hqr'⟩ := (hi.j.prop ra r hg).1 a hc
+      rw [hq] at hq'; injection hq' with hq'; subst hq'
+      exact hne (hqr'.trans hid)
+    simp only [Option.map_some, h1, if_neg h2, Bool.false_eq_true, if_false]
+  · intro pr hpr q hq hne
+    have hcr : ∀ st ∈ r.states, st.creator ≠ pr.1 := by
+      intro st hst hc
+      obtain ⟨q', hq', hqr'⟩ := hi.j.creators ra r hg st hst
+      rw [hc, hq] at hq'; injection hq' with hq'; subst hq'
+      exact hne hqr'
+    obtain ⟨stk, l, ps⟩ := revertPlan_spec (hi.chain.get hg) hplan
+    refine (fork_liability_pruned s s' ra lv keep r kst hg hplan e).2.2.1 pr hpr ?_ ?_
+    · rw [ps.kst_creator]
+      exact fun hc => hcr stk (List.mem_of_getElem? ps.hst) hc.symm
+    · intro st hst
+      exact hcr st (List.mem_of_mem_drop hst)
+
+/-- **The forked rollapp's record, reachable states**: with the invariants the proposer is always
+    reset to the sentinel, so the record after the fork is exactly this one. -/
+theorem fork_rollapp_record (s s' : St) (ra lv keep : Nat) (r : Rollapp) (kst : SInfo) (hi : Inv s)
+    (hg : getRa s ra = some r) (hplan : revertPlan r ((lv + 1) % 2 ^ 64) = .ok (keep, kst))
+    (e : hardFork s ra lv = .ok s') :
+    getRa s' ra = some { r with states := r.states.take (keep - 1) ++ [kst],
+                                revs := r.revs ++ [(latestRev r + 1, kst.last + 1)],
+                                evH := 0, cdStart := s.h, proposer := none, successor := none } := by
+  obtain ⟨p', h1, h2⟩ := hardFork_getRa_same hg hplan e
+  rcases h2 with h2 | ⟨_, a, h3, h4⟩
+  · rw [h2] at h1; exact h1
+  · exfalso
+    obtain ⟨q, hq, _⟩ := (hi.j.prop ra r hg).1 a h3
+    rw [h4] at hq; cases hq
+
+/-- **The next accepted update after a fork, any history in between**: start from any state
+    satisfying the invariants (every reachable state), fork rollapp `ra`, then run any op sequence in
+    which every op either is rejected or is not an update of `ra`, a fraud proposal against `ra`, a
+    kick by a sequencer of `ra` or an obsolete marking (all other messages, updates and forks of other
+    rollapps, block processing with finalization and liveness slashing are allowed).  Then an accepted
+    update of `ra` has `start = h' + 1` and carries the bumped revision. -/
+theorem post_fork_update_any_history (s s' : St) (ra lv keep : Nat) (r : Rollapp) (kst : SInfo) (hi : Inv s)
+    (hg : getRa s ra = some r) (hplan : revertPlan r ((lv + 1) % 2 ^ 64) = .ok (keep, kst))
+    (e : hardFork s ra lv = .ok s') (ops2 : List Op) (hq : Quiet ra s' ops2) (s3 : St) (m : UpdMsg)
+    (hm : m.ra = ra) (acc : apply (ops2.foldl (fun s o => (step s o).1) s') (.update m) = .ok s3) :
+    m.start = kst.last + 1 ∧ m.rev = latestRev r + 1 := by
+  have hi' := fork_preserves_inv s s' ra lv hi e
+  obtain ⟨k2, i2⟩ := quiet_rk hi' hq
+  have hr' := fork_rollapp_record s s' ra lv keep r kst hi hg hplan e
+  obtain ⟨r2, hg2, hrevs, hlat⟩ := k2 _ hr'
+  exact post_fork_update s s' ra lv keep r _ kst (hi.chain.get hg) hg hplan e hr' _ s3 r2 m hm hg2
+    (i2.chain.get hg2) hrevs hlat acc
+
+-- ================================================================ non-vacuity
+
+def exParams : Params where
+  dispute := 2
+  lsBlocks := 5
+  lsInterval := 2
+  lsMul := ⟨0⟩
+  lsAbs := 0
+  dishonorSU := 1
+  dishonorL := 1
+  kickThr := 2
+  noticePeriod := 10
+def exBds (start n : Nat) : List BD := (List.range n).map fun i => { height := start + i, hasTs := true, drs := 1, rootOk := true }
+def exUpd (ra sender start num rev : Nat) : Op :=
+  .update { ra := ra, sender := sender, start := start, num := num, rev := rev, last := false, bds := exBds start num }
+/-- two rollapps sharing hub block 1; rollapp 0 has states 1–3 and 4–6 by sequencer 1 (sequencer 2
+    bonded but idle), rollapp 1 has state 1–2 by sequencer 3; genesis bridge of rollapp 0 at height 1 -/
+def exPre : List Op := [.createRollapp 0 9 10, .createRollapp 1 9 10, .fund 1 100, .fund 2 100, .fund 3 100,
+  .createSeq 1 0 10 true, .createSeq 2 0 10 true, .createSeq 3 1 10 true,
+  exUpd 0 1 1 3 0, exUpd 1 3 1 2 0, exUpd 0 1 4 3 0, .bridge 0 1]
+def exStates (s : St) : List (List (Nat × Nat × Nat)) := s.ras.map fun r => r.states.map fun x => (x.start, x.num, x.creator)
+def exRevs (s : St) : List (List (Nat × Nat)) := s.ras.map (·.revs)
+def exProposers (s : St) : List (Option Nat) := s.ras.map (·.proposer)
+def exQueue (s : St) : List (Nat × Nat × List Nat) := s.queue.map fun e => (e.ch, e.ra, e.idx)
+
+-- before the fork
+example : exStates (run exParams exPre) = [[(1, 3, 1), (4, 3, 1)], [(1, 2, 3)]] ∧
+    exRevs (run exParams exPre) = [[(0, 0)], [(0, 0)]] ∧ exProposers (run exParams exPre) = [some 1, some 3] ∧
+    exQueue (run exParams exPre) = [(1, 0, [1, 2]), (1, 1, [1])] ∧
+    (run exParams exPre).seqH = [(1, 1), (1, 2), (1, 3), (1, 4), (1, 5), (1, 6), (3, 1), (3, 2)] := by decide
+-- fork inside state 2 (fraud height 5, last valid 4): state 2 truncated to 4–4, liabilities 5, 6 gone
+def exFork5 : St := run exParams (exPre ++ [.fraud true 0 5 0 none none])
+example : exStates exFork5 = [[(1, 3, 1), (4, 1, 1)], [(1, 2, 3)]] ∧
+    exRevs exFork5 = [[(0, 0), (1, 5)], [(0, 0)]] ∧ exProposers exFork5 = [none, some 3] ∧
+    exQueue exFork5 = [(1, 0, [1, 2]), (1, 1, [1])] ∧
+    exFork5.seqH = [(1, 1), (1, 2), (1, 3), (1, 4), (3, 1), (3, 2)] := by decide
+-- fork on the first height of state 2 (fraud height 4): state 2 and its queue index removed
+def exFork4 : St := run exParams (exPre ++ [.fraud true 0 4 0 none none])
+example : exStates exFork4 = [[(1, 3, 1)], [(1, 2, 3)]] ∧
+    exRevs exFork4 = [[(0, 0), (1, 4)], [(0, 0)]] ∧ exProposers exFork4 = [none, some 3] ∧
+    exQueue exFork4 = [(1, 0, [1]), (1, 1, [1])] ∧
+    exFork4.seqH = [(1, 1), (1, 2), (1, 3), (3, 1), (3, 2)] := by decide
+-- fork beyond the latest height (fraud height 9): nothing removed, revision starts at 7
+def exFork9 : St := run exParams (exPre ++ [.fraud true 0 9 0 none none])
+example : exStates exFork9 = [[(1, 3, 1), (4, 3, 1)], [(1, 2, 3)]] ∧
+    exRevs exFork9 = [[(0, 0), (1, 7)], [(0, 0)]] ∧ exProposers exFork9 = [none, some 3] ∧
+    exQueue exFork9 = [(1, 0, [1, 2]), (1, 1, [1])] ∧
+    exFork9.seqH = [(1, 1), (1, 2), (1, 3), (1, 4), (1, 5), (1, 6), (3, 1), (3, 2)] := by decide
+-- obsolete marking of DRS version 1 (used by both rollapps): rollapp 0 is forked to its latest height
+-- (nothing removed, revision 1 starts at 7); rollapp 1 has no genesis bridge, its fork is dropped
+def exObs : St := run exParams (exPre ++ [.obsolete true [1]])
+example : exStates exObs = [[(1, 3, 1), (4, 3, 1)], [(1, 2, 3)]] ∧
+    exRevs exObs = [[(0, 0), (1, 7)], [(0, 0)]] ∧ exProposers exObs = [none, some 3] ∧
+    exQueue exObs = [(1, 0, [1, 2]), (1, 1, [1])] ∧
+    exObs.seqH = [(1, 1), (1, 2), (1, 3), (1, 4), (1, 5), (1, 6), (3, 1), (3, 2)] ∧ exObs.obsolete = [1] := by decide
+-- refusals: wrong revision; last valid height below the genesis-bridge height; genesis bridge not done (rollapp 1)
+example : (step (run exParams exPre) (.fraud true 0 5 1 none none)).2 = some .wrongRevision := by decide
+example : (step (run exParams exPre) (.fraud true 0 1 0 none none)).2 = some .forkNotAllowed := by decide
+example : (step (run exParams exPre) (.fraud true 1 2 0 none none)).2 = some .forkNotAllowed := by decide
+-- refusal: the fork height lies in a finalized state (two blocks later both states of rollapp 0 are final)
+def exFin : St := run exParams (exPre ++ [.begin_ 1, .begin_ 1, .end_ []])
+example : (exFin.ras.map fun r => r.states.map (·.finalized)) = [[true, true], [true]] ∧ exFin.seqH = [] ∧
+    (step exFin (.fraud true 0 5 0 none none)).2 = some .finalizedHeight ∧
+    (step exFin (.fraud true 0 9 0 none none)).2 = none := by decide
+-- refusals: first height of the first recorded state (no previous state to keep); below the first recorded height
+def exLate : St := run exParams [.createRollapp 0 9 10, .fund 1 100, .createSeq 1 0 10 true, exUpd 0 1 3 2 0, .bridge 0 1]
+example : (step exLate (.fraud true 0 3 0 none none)).2 = some .noState ∧
+    (step exLate (.fraud true 0 2 0 none none)).2 = some .internal := by decide
+-- after the fork at 5 and the election of sequencer 2: only start 5 / revision 1 is accepted
+example : (step (run exParams (exPre ++ [.fraud true 0 5 0 none none, .optIn 2 true])) (exUpd 0 2 5 1 1)).2 = none := by decide
+example : (step (run exParams (exPre ++ [.fraud true 0 5 0 none none, .optIn 2 true])) (exUpd 0 2 5 1 0)).2 = some .wrongRevision := by decide
+example : (step (run exParams (exPre ++ [.fraud true 0 5 0 none none, .optIn 2 true])) (exUpd 0 2 6 1 1)).2 = some .wrongHeight := by decide
 
 end DymVerif.C03
